@@ -181,7 +181,7 @@ struct Run {
   // closure sums): the only ones applied in a limit history of a floating-point instantiation
   bool float_limit_ok(unsigned k) const {
     switch (k) { case 0: case 1: case 5: case 6: case 7: case 8: case 9: case 10: case 11: case 14: case 29: case 30: case 31: case 32:
-      case 33: case 34: case 35: case 36: case 37: case 40: case 41: case 42: case 43: return true; default: return false; }
+      case 33: case 34: case 35: case 36: case 37: case 40: case 41: case 42: case 43: case 44: case 45: return true; default: return false; }
   }
 
   bool live(int s) const { return (bool)slot[s]; }
@@ -263,8 +263,9 @@ struct Run {
     { S c(*slot[s]); OS o; o << "res " << s << " " << n << " mcons"; put_cs(o, c.minimized_constraints(), n); J.line(o.str()); }
     if (K == 0) {   // Polyhedron(Topology, const Box&) builds from the intervals directly: a third reading
       OS o; o << "res " << s << " " << n << " poly";
-      if (OPEN) { NNC_Polyhedron ph(*slot[s]); put_cs(o, ph.constraints(), n); }
-      else { C_Polyhedron ph(*slot[s]); put_cs(o, ph.constraints(), n); }
+      S c(*slot[s]);    // (the conversion asks the box whether it is empty, which would cache the answer in the original)
+      if (OPEN) { NNC_Polyhedron ph(c); put_cs(o, ph.constraints(), n); }
+      else { C_Polyhedron ph(c); put_cs(o, ph.constraints(), n); }
       J.line(o.str());
     }
     status_line(s);
@@ -468,6 +469,92 @@ struct Run {
     { OS o; o << "q " << a << " disjoint " << b << " " << slot[a]->is_disjoint_from(*slot[b]); J.line(o.str()); }
   }
 
+  // ---- empty operands in every lazy state ---------------------------------------------------------------------
+  // A constraint system that is unsatisfiable because of one variable (box: crossing bounds; BD shapes / octagons:
+  // a negative cycle that only the closure finds), the other variables unconstrained or with wide bounds sticking
+  // out of any ordinary operand.
+  Constraint_System contradictory_cs(dimension_type n) {
+    Constraint_System cs; cs.insert(0 * Variable(n - 1) >= -1);
+    dimension_type i = r.below(n);
+    long a = r.range(-4, 4);
+    unsigned how = r.below(K == 0 ? 2 : (n >= 2 ? (K == 1 ? 4 : 5) : 2));
+    if (how == 0) { cs.insert(Variable(i) >= a + 1 + (long)r.below(3)); cs.insert(Variable(i) <= a); }
+    else if (how == 1) {
+      if (OPEN) { cs.insert(Variable(i) > a); cs.insert(Variable(i) < a); }
+      else { cs.insert(2 * Variable(i) >= 2 * a + 1); cs.insert(2 * Variable(i) <= 2 * a - 1); }
+    }
+    else {
+      dimension_type j = (i + 1 + r.below(n - 1)) % n;
+      if (how == 2) { cs.insert(Variable(i) - Variable(j) <= -1); cs.insert(Variable(j) - Variable(i) <= 0); }
+      else if (how == 3) {     // a cycle through the zero node: x_i <= a, x_j - x_i <= 0, x_j >= a + 1
+        cs.insert(Variable(i) <= a); cs.insert(Variable(j) - Variable(i) <= 0); cs.insert(Variable(j) >= a + 1); }
+      else { cs.insert(Variable(i) + Variable(j) <= a); cs.insert(-Variable(i) - Variable(j) <= -a - 1); }
+    }
+    for (dimension_type k = 0; k < n; ++k) if (k != i && r.chance(1, 2)) {
+      if (r.chance(1, 2)) cs.insert(Variable(k) <= 100 + (long)r.below(50)); else cs.insert(Variable(k) >= -100 - (long)r.below(50));
+    }
+    return cs;
+  }
+  // slot e := an empty element in one of three lazy states: 0 emptiness not detected, 1 detected (cached), 2 built EMPTY
+  void make_empty_operand(int e, dimension_type n, const Constraint_System& cs, unsigned state) {
+    if (state == 2) { OS o; o << "new " << e << " " << n << " empty"; J.line(o.str()); slot[e].reset(new S(n, EMPTY)); res(e); return; }
+    { OS o; o << "new " << e << " " << n << " cons"; put_cs(o, cs, n); J.line(o.str()); }
+    slot[e].reset(new S(n, UNIVERSE)); slot[e]->add_constraints(cs); res(e);
+    if (state == 1) { arg(e); OS o; o << "q " << e << " is_empty " << slot[e]->is_empty(); J.line(o.str()); status_line(e); }
+  }
+  void binary_query(int s, int t, unsigned which) {
+    arg(s); arg(t);
+    OS o; o << "q " << s << " ";
+    const S& q = *slot[s]; const S& y = *slot[t];
+    switch (which) {
+      case 0: o << "contains " << t << " " << q.contains(y); break;
+      case 1: o << "strictly_contains " << t << " " << q.strictly_contains(y); break;
+      case 2: o << "disjoint " << t << " " << q.is_disjoint_from(y); break;
+      default: o << "equals " << t << " " << (q == y) << " " << (q != y); break;
+    }
+    J.line(o.str());
+  }
+  void binary_op(int s, int t, unsigned which) {
+    S& P = *slot[s];
+    static const char* nm[] = {"meet", "join", "diff", "join_if_exact", "concat", "time_elapse"};
+    if (which == 4 && dim(s) + dim(t) > maxdim) which = 0;
+    if (pf.limits && pf.is_float && (which == 2 || which == 5)) which = 0;    // (see float_limit_ok)
+    arg(s); arg(t);
+    { OS o; o << "op " << s << " " << nm[which] << " " << t; J.line(o.str()); }
+    try {
+      switch (which) {
+        case 0: P.intersection_assign(*slot[t]); break;
+        case 1: P.upper_bound_assign(*slot[t]); break;
+        case 2: P.difference_assign(*slot[t]); break;
+        case 3: { bool b = P.upper_bound_assign_if_exact(*slot[t]); OS q; q << "ret " << b; J.line(q.str()); break; }
+        case 4: { S cp(*slot[t]); P.concatenate_assign(cp); break; }
+        default: P.time_elapse_assign(*slot[t]); break;
+      }
+    } catch (...) { J.line("exc " + pplv::exc_class()); }
+    res(s);
+  }
+  // binary predicates and operators between an ordinary element `s' and an empty one in slot `e', in both roles
+  void empty_battery(int s) {
+    dimension_type n = dim(s);
+    if (n == 0) return;
+    int e = (s + 1 + (int)r.below(3)) % 4;
+    Constraint_System cs = contradictory_cs(n);
+    unsigned reps = 2 + r.below(3);
+    for (unsigned i = 0; i < reps; ++i) {
+      unsigned state = r.below(5); if (state > 2) state = 0;      // mostly: emptiness not yet detected
+      make_empty_operand(e, n, cs, state);
+      bool empty_is_receiver = r.chance(1, 2);
+      int a = empty_is_receiver ? e : s, b = empty_is_receiver ? s : e;
+      if (r.chance(1, 2)) binary_query(a, b, r.below(4));
+      else {
+        // (the operator changes its receiver: work on a copy of `s' kept in the fourth role when `s' is the receiver)
+        if (!empty_is_receiver) { S saved(*slot[s]); binary_op(a, b, r.below(6)); if (dim(s) != n) { OS o; o << "new " << s << " " << n << " cons"; put_cs(o, saved.constraints(), n); J.line(o.str()); slot[s].reset(new S(saved)); res(s); } }
+        else binary_op(a, b, r.below(6));
+      }
+      if (dim(e) != n || dim(s) != n) return;
+    }
+  }
+
   Relation_Symbol rnd_rel() {
     static const Relation_Symbol rs[] = {LESS_OR_EQUAL, EQUAL, GREATER_OR_EQUAL, LESS_THAN, GREATER_THAN};
     return rs[r.below(OPEN ? 5 : 3)];
@@ -492,7 +579,7 @@ struct Run {
     S& P = *slot[s];
     dimension_type n = P.space_dimension();
     OS o;
-    unsigned k = r.below(44);
+    unsigned k = r.below(46);
     if (pf.limits && pf.is_float && !float_limit_ok(k)) {
       // counted in the evidence: operators not yet understood at the range limit of a floating-point T
       OS q; q << "note limit-skip " << k; J.line(q.str());
@@ -651,9 +738,7 @@ struct Run {
       case 42: { int a = r.below(4), b = r.below(4); if (a == b) return;
         if (n > maxdim) return;
         create_alt_cycle(a, b, n); return; }
-      default: { int t = pick_compatible(s);
-        arg(s); arg(t); o << "op " << s << " meet " << t; J.line(o.str()); reported = true;
-        P.intersection_assign(*slot[t]); break; }
+      default: { empty_battery(s); return; }
       }
     } catch (...) {
       J.line("exc " + pplv::exc_class());
